@@ -34,6 +34,15 @@ KITCHEN = [
 ]
 
 
+LEADERLESS = [
+    {"k": "function", "doc": 1, "params": ["a"], "doctext": ["Example::", "", "    literal line", "      deeper", "",
+                                                               ".. note::", "", "   body of the note"]},
+    {"k": "close"},
+    {"k": "set", "doc": 1, "values": ["v"], "doctext": ["term", "   definition body"]},
+    {"k": "cpp_class", "doc": 1}, {"k": "cpp_attr", "doc": 1, "default": "d", "doctext": ["* item", "  continued"]},
+]
+
+
 def page_of(text, raw_newlines=False):
     r = pipeline.document_text(text)
     return r["page"], r["error"]
@@ -72,10 +81,17 @@ def norm_crlf(s):
 def check_module(job):
     events, mode = job[0], job[1]
     part, nparts = (job[2], job[3]) if len(job) > 2 else (0, 1)
+    base_layout = dict(job[4]) if len(job) > 4 else {}
+    _render = cmakegen.render
+
+    def render_with_base(its_, layout=None, gaps=None):
+        lay = dict(base_layout)
+        lay.update(layout or {})
+        return _render(its_, lay, gaps)
     counter = [0]
     evs = cmakegen.close(events)
     its = cmakegen.items(evs)
-    base_text = cmakegen.render(its)
+    base_text = render_with_base(its)
     base, err = page_of(base_text)
     n = 1
     viol = []
@@ -108,33 +124,33 @@ def check_module(job):
     fillers = FILL if mode in ("full", "pairs") else LIGHT
     gv = list(gap_variants(toks, kinds, fillers, only_between=(mode == "light")))
     for g, f, gtext in gv:
-        cmp(f"gap {g} ({kinds[g]}->{kinds[g + 1]}) filler {f!r}", cmakegen.render(its, gaps={g: gtext}))
+        cmp(f"gap {g} ({kinds[g]}->{kinds[g + 1]}) filler {f!r}", render_with_base(its, gaps={g: gtext}))
     # head / tail
     for f in fillers:
         trail = "" if f[-1] in " \t\n" else "\n"
-        cmp(f"head filler {f!r}", cmakegen.render(its, {"head": f + trail}))
-        cmp(f"tail filler {f!r}", cmakegen.render(its, {"tail": "\n" + f}))
+        cmp(f"head filler {f!r}", render_with_base(its, {"head": f + trail}))
+        cmp(f"tail filler {f!r}", render_with_base(its, {"tail": "\n" + f}))
         if f.endswith("\n"):
-            cmp(f"tail filler {f[:-1]!r} at EOF", cmakegen.render(its, {"tail": "\n" + f[:-1]}))
-    cmp("no final newline", cmakegen.render(its, {"tail": ""}))
+            cmp(f"tail filler {f[:-1]!r} at EOF", render_with_base(its, {"tail": "\n" + f[:-1]}))
+    cmp("no final newline", render_with_base(its, {"tail": ""}))
     if mode != "light":
         for ind in INDENTS[1:]:
-            cmp(f"doccomments re-indented by {ind!r}", cmakegen.render(its, {"doc_indent": ind}))
+            cmp(f"doccomments re-indented by {ind!r}", render_with_base(its, {"doc_indent": ind}))
             cmp(f"doccomments and commands indented by {ind!r}",
-                cmakegen.render(its, {"doc_indent": ind, "cmd_indent": ind, "head": ind}))
+                render_with_base(its, {"doc_indent": ind, "cmd_indent": ind, "head": ind}))
         for case in ("upper", "mixed"):
-            cmp(f"command names in {case} case", cmakegen.render(cmakegen.items(evs, case)))
-        cmp("CRLF line endings", cmakegen.render(its, {"eol": "\r\n"}), crlf=True)
-        cmp("arguments one per line with trailing comments", cmakegen.render(
+            cmp(f"command names in {case} case", render_with_base(cmakegen.items(evs, case)))
+        cmp("CRLF line endings", render_with_base(its, {"eol": "\r\n"}), crlf=True)
+        cmp("arguments one per line with trailing comments", render_with_base(
             its, {"arg_sep": " # trailing\n    ", "after_open": "\n    ", "before_close": " # last\n"}))
     if mode == "pairs":
         light = [(g, f, t) for g, f, t in gv if f in LIGHT]
         for (g1, f1, t1), (g2, f2, t2) in itertools.combinations(light, 2):
             if g1 != g2:
-                cmp(f"gaps {g1},{g2} fillers {f1!r},{f2!r}", cmakegen.render(its, gaps={g1: t1, g2: t2}))
+                cmp(f"gaps {g1},{g2} fillers {f1!r},{f2!r}", render_with_base(its, gaps={g1: t1, g2: t2}))
         for g, f, gtext in light:
-            cmp(f"CRLF + gap {g} filler {f!r}", cmakegen.render(its, {"eol": "\r\n"}, gaps={g: gtext}), crlf=True)
-            cmp(f"upper case + gap {g} filler {f!r}", cmakegen.render(cmakegen.items(evs, "upper"), gaps={g: gtext}))
+            cmp(f"CRLF + gap {g} filler {f!r}", render_with_base(its, {"eol": "\r\n"}, gaps={g: gtext}), crlf=True)
+            cmp(f"upper case + gap {g} filler {f!r}", render_with_base(cmakegen.items(evs, "upper"), gaps={g: gtext}))
     msgs = [v[1] for v in viol[:5]]
     from .. import rstobs
     nt = len(rstobs.Page(base).entries()) > 0
@@ -151,6 +167,8 @@ def run(ctx):
     en = functools.partial(statespace.enabled, maxnest=3)
     hs = modsearch.all_histories(n_light, en)
     jobs = [(KITCHEN, "pairs" if not quick else "full", p, 48) for p in range(48)]
+    # doccomments written without '#' leaders whose lines carry their own indentation (literal block, directive body)
+    jobs += [(LEADERLESS, "full", p, 4, (("leader", False),)) for p in range(4)]
     for h in hs:
         if len(h) <= n_full:
             jobs.append((h, "pairs" if (not quick and len(h) <= 1) else "full"))
